@@ -19,6 +19,18 @@ TLA_CP = "/opt/veriftools/tla/tla2tools.jar:/opt/veriftools/tla/CommunityModules
 NCPU = os.cpu_count() or 4
 
 
+def maxpar():
+    """Parallelism cap: env VERIF_MAXPAR, or the developer override file .work/maxpar (used while many
+    engineers share the machine), else all cores."""
+    try:
+        if os.environ.get("VERIF_MAXPAR"):
+            return max(1, int(os.environ["VERIF_MAXPAR"]))
+        with open(os.path.join(VERIF, ".work", "maxpar")) as f:
+            return max(1, int(f.read().strip()))
+    except Exception:
+        return NCPU
+
+
 class Broken(Exception):
     pass
 
@@ -106,7 +118,7 @@ class Ctx:
         """Run TLC in directory d.  Returns TLCResult.  Raises Broken on JVM trouble/timeouts."""
         res = TLCResult()
         cfg = cfg or module
-        workers = workers or (min(NCPU, 16))
+        workers = min(workers or 16, NCPU, maxpar() if (workers or 16) > 1 else 1)
         xmx = xmx or ("4g" if self.quick else "8g")
         meta = os.path.join(d, "meta.%s.%d" % (cfg, int(time.time() * 1000) % 100000))
         cmd = ["java", "-XX:+UseParallelGC", "-Xmx" + xmx, "-Xss64m"]
@@ -215,7 +227,7 @@ class Ctx:
             cases.append(cur)
         if not cases:
             raise Broken("empty trace " + trace_path)
-        parallel = max(1, min(parallel or NCPU, len(cases)))
+        parallel = max(1, min(parallel or NCPU, len(cases), maxpar()))
         chunks = [[] for _ in range(parallel)]
         sizes = [0] * parallel
         for c in sorted(cases, key=len, reverse=True):   # greedy balance
